@@ -372,6 +372,11 @@ class C05(RunSpec):
         p["leaf"] = _cycle(ALL_LEAVES, idx, 1)
         p["levels"] = [2, 2, 3, 3, 1]
         p["level_limit"] = rng.randint(2, 4)
+        if idx % 9 == 8:
+            # (reuse pair) stop conditions must not carry anything over from the first tree: demes that stop, ids that repeat
+            p["gsc"] = _cycle(["fevals", "evals", "fevals", "nononroot", "allstopped", "fevals"], idx // 9)
+            p["lscs"] = ["melimit", "user", "melimit"]
+            p["levels"] = [2, 3]
         if idx % 11 == 10:
             p = {"kind": "minimize", "dim": (2, 3), "budget": rng.choice(["maxfun", "maxiter"])}
         return p
@@ -379,6 +384,9 @@ class C05(RunSpec):
     def make_case(self, seed, idx, tier):
         d = super().make_case(seed, idx, tier)
         rng = gen.case_rng(self.prop, seed, idx, "target")
+        if d.get("kind") == "tree" and idx % 5 == 2:
+            d["rerun"] = True
+            d["entry"] = "tree"
         if d.get("kind") == "tree" and d["gsc"]["k"] in ("evals", "fevals") and d["options"].get("random_seed") is not None:
             # pilot-then-target: the limit is chosen (in run_case) so that first-true falls on a chosen consultation
             d["target"] = {"frac": round(rng.random(), 3), "prefer_inside": rng.random() < 0.8}
@@ -462,6 +470,7 @@ class C05(RunSpec):
 
     def floors(self, tier):
         fl = [(f"C05.gsc_true.{g}", 1, "GSC class seen true") for g in gen.GSC_KINDS]
+        fl += [("reruns_of_a_finished_tree", 5, "run() called again on a finished tree")]
         fl += [("C05.targeted_runs_hit_the_chosen_consultation", 3, "pilot-then-target placements that hit the chosen consultation")]
         fl += [
             ("C05.first_true_inside_with_2_to_run", 1, "first-true inside a metaepoch with >=2 demes still to run"),
